@@ -94,3 +94,30 @@ package http
 //@ func (*confirmed).Received
 //@   ensures code-map: result == (c.code == sts.ConfirmPassed)
 //@   modifies nothing
+
+// ---------------------------------------------------------------- static route: files only through the rooted handle (C14)
+
+//@ func sanitizePathSegment
+//@   ensures refuses-empty-and-unsafe: r1 == nil ==> r0 == value && value != "" && safePathSegmentRe.MatchString(value)
+//@   modifies nothing
+//@ func sanitizeRelativePath trusted
+//@   modifies nothing
+//@ func isSubpath trusted pure stable
+//@ func rootRelativePath
+//@   ensures (relPath == "" ==> result == ".") && (relPath != "" ==> result == relPath)
+//@   modifies nothing
+
+//@ func (*Server).routeFile
+//@   before call os.OpenRoot assert rejects-on-sanitise-error: lastret(sanitizePathSegment, 1) == nil && lastret(sanitizeRelativePath, 1) == nil && called(isSubpath) && lastret(isSubpath, 0) && lastarg(isSubpath, 1) == arg0 && !called(net/http.ResponseWriter.WriteHeader)
+//@   before call (*os.Root).Stat assert fs-only-through-root: arg0 == lastret(os.OpenRoot, 0) && arg1 == rootName && rootName == lastret(rootRelativePath, 0) && lastarg(rootRelativePath, 0) == lastret(sanitizeRelativePath, 0)
+//@   before call (*os.Root).Open assert fs-only-through-root: arg0 == lastret(os.OpenRoot, 0) && arg1 == rootName
+//@   before call (*os.Root).Remove assert fs-only-through-root: arg0 == lastret(os.OpenRoot, 0) && arg1 == rootName && found && !lastret(fs.FileInfo.IsDir, 0)
+//@   forbid call os.Open label fs-only-through-root
+//@   forbid call os.Remove label fs-only-through-root
+//@   forbid call os.RemoveAll label fs-only-through-root
+//@   forbid call os.Stat label fs-only-through-root
+//@   forbid call os.ReadDir label fs-only-through-root
+//@   forbid call os.ReadFile label fs-only-through-root
+//@   forbid call path/filepath.Walk label fs-only-through-root
+//@   forbid call os.OpenFile label fs-only-through-root
+//@   forbid call os.Create label fs-only-through-root
